@@ -23,9 +23,36 @@ def main() -> int:
     if a.replay:
         content = json.load(open(a.replay))
         return mod.replay(ctx, content)
+    # Watchdog: a check that does not come back is reported, not waited for.  If the time runs out while the implementation is
+    # being driven (frames under the repository on the stack) that is a broken correspondence — the implementation no longer
+    # answers — otherwise an internal error (exit 2).
+    import signal
+
+    class _Timeout(BaseException):
+        pass
+
+    limit = int(os.environ.get("VERIF_TIMEOUT", "1500" if a.tier == "quick" else "14400"))
+
+    def _alarm(signum, frame):
+        raise _Timeout(f"no result after {limit} s")
+
+    signal.signal(signal.SIGALRM, _alarm)
+    signal.alarm(limit)
     try:
         mod.run(ctx)
+        signal.alarm(0)
+    except _Timeout as e:
+        tb = traceback.extract_tb(e.__traceback__)
+        in_repo = [f for f in tb if f.filename.startswith(core.REPO + "/")]
+        if in_repo:
+            f = in_repo[-1]
+            ctx.broken.append(f"correspondence: the implementation did not return ({e}) at "
+                              f"{os.path.relpath(f.filename, core.REPO)}:{f.lineno} ({f.name}) while being driven by the harness")
+            return core.finish(ctx, level=getattr(mod, "LEVEL", "proof"))
+        print(f"[{a.prop}] TIMEOUT of the check machinery: {e}", file=sys.stderr)
+        return 2
     except Exception as e:
+        signal.alarm(0)
         traceback.print_exc()
         tb = traceback.extract_tb(e.__traceback__)
         in_repo = [f for f in tb if f.filename.startswith(core.REPO + "/")]
